@@ -176,7 +176,9 @@ impl RecvConn {
         let header = unmarshal::unmarshal_header(&mut Cursor::new(msg_buf_in))?;
         let header_fields_len =
             crate::wire::util::parse_u32(&msg_buf_in[unmarshal::HEADER_LEN..], header.byteorder)?;
-        let complete_header_size = unmarshal::HEADER_LEN + header_fields_len as usize + 4; // +4 because the length of the header fields does not count
+        // Check the announced lengths against the limits of the protocol before any memory is reserved for them
+        let header_fields_len = crate::wire::util::check_array_len(header_fields_len)?;
+        let complete_header_size = unmarshal::HEADER_LEN + header_fields_len + 4; // +4 because the length of the header fields does not count
 
         let padding_between_header_and_body = 8 - ((complete_header_size) % 8);
         let padding_between_header_and_body = if padding_between_header_and_body == 8 {
@@ -187,6 +189,9 @@ impl RecvConn {
 
         let bytes_needed =
             complete_header_size + padding_between_header_and_body + header.body_len as usize;
+        if bytes_needed > crate::wire::MAX_MESSAGE_LEN {
+            return Err(UnmarshalError::MessageTooLong.into());
+        }
         Ok(bytes_needed)
     }
 
